@@ -366,6 +366,8 @@ pub enum Ev {
     RemoteRequest(usize, usize),
     OfferOwnId,
     OfferRouter,
+    /// member (c, j) answers and its answer names a router address, the own id and one ordinary node
+    AnswerNamingRouter(usize, usize),
     Advance(u64),
 }
 
@@ -375,6 +377,7 @@ pub fn ev_json(e: &Ev) -> Value {
         Ev::OfferHearsay(c, j) => json!({"ev":"OfferHearsay","c":c,"j":j}),
         Ev::LocalRequest(c, j) => json!({"ev":"LocalRequest","c":c,"j":j}),
         Ev::RemoteRequest(c, j) => json!({"ev":"RemoteRequest","c":c,"j":j}),
+        Ev::AnswerNamingRouter(c, j) => json!({"ev":"AnswerNamingRouter","c":c,"j":j}),
         Ev::OfferOwnId => json!({"ev":"OfferOwnId"}),
         Ev::OfferRouter => json!({"ev":"OfferRouter"}),
         Ev::Advance(ms) => json!({"ev":"Advance","ms":ms}),
@@ -388,6 +391,7 @@ pub fn ev_parse(v: &Value) -> Ev {
         "OfferHearsay" => Ev::OfferHearsay(c, j),
         "LocalRequest" => Ev::LocalRequest(c, j),
         "RemoteRequest" => Ev::RemoteRequest(c, j),
+        "AnswerNamingRouter" => Ev::AnswerNamingRouter(c, j),
         "OfferOwnId" => Ev::OfferOwnId,
         "OfferRouter" => Ev::OfferRouter,
         _ => Ev::Advance(v["ms"].as_u64().unwrap_or(0)),
@@ -453,6 +457,14 @@ impl Ctx {
                     node.remote_request();
                 }
             }
+            Ev::AnswerNamingRouter(c, j) => {
+                let h = member(self.local, c, j);
+                let named = [
+                    NodeHandle::new(member(self.local, 1, 78).id, router_addr()),
+                    NodeHandle::new(self.local, "10.9.9.8:2".parse().unwrap()),
+                ];
+                n.table.add_nodes(Node::as_good(h.id, h.addr), &named);
+            }
             Ev::OfferOwnId => {
                 n.table.add_node(Node::as_good(self.local, "10.9.9.9:1".parse().unwrap()));
             }
@@ -476,6 +488,8 @@ impl Ctx {
             let offered = match *e {
                 Ev::OfferGood(c, j) => Some((member(self.local, c, j), NodeStatus::Good)),
                 Ev::OfferHearsay(c, j) => Some((member(self.local, c, j), NodeStatus::Questionable)),
+                // the named router / own id are inadmissible: judged as the offer of the answering node alone
+                Ev::AnswerNamingRouter(c, j) => Some((member(self.local, c, j), NodeStatus::Good)),
                 Ev::OfferOwnId => Some((NodeHandle::new(self.local, "10.9.9.9:1".parse().unwrap()), NodeStatus::Good)),
                 Ev::OfferRouter => Some((NodeHandle::new(member(self.local, 1, 77).id, router_addr()), NodeStatus::Good)),
                 _ => None,
@@ -563,6 +577,9 @@ pub fn alphabet(classes: &[usize], members: usize, req_members: usize, steps: &[
     }
     v.push(Ev::OfferOwnId);
     v.push(Ev::OfferRouter);
+    for &c in classes.iter().take(2) {
+        v.push(Ev::AnswerNamingRouter(c, 3));
+    }
     for s in steps {
         v.push(Ev::Advance(*s));
     }
